@@ -75,6 +75,8 @@ pub enum SCmd {
     Closed { k: String, cancel: oneshot::Receiver<()> },
     IsClosed { k: String },
     OverrideGraceful { on: bool },
+    /// hand the sender over to a forwarder (the actor ends)
+    Take { reply: oneshot::Sender<Sender> },
     Drop,
 }
 
@@ -88,6 +90,9 @@ pub enum RCmd {
     RecvMsg { k: String, side: usize, name: String, cancel: oneshot::Receiver<()> },
     SetMaxData { n: usize },
     Probe { k: String },
+    /// `Receiver::forward` into the sender that arrives on `tx`; both ports are dropped when it returns,
+    /// as the forwarding task of `rch::bin` does
+    Forward { k: String, tx: oneshot::Receiver<Sender>, cancel: oneshot::Receiver<()> },
     Drop,
 }
 
@@ -253,6 +258,10 @@ fn sender_actor(
                 }
                 SCmd::IsClosed { k } => done(&pending, &k, format!("isclosed={}", tx.is_closed() as u8)),
                 SCmd::OverrideGraceful { on } => tx.set_override_graceful_close(on),
+                SCmd::Take { reply } => {
+                    let _ = reply.send(tx);
+                    return;
+                }
                 SCmd::Drop => break,
             }
         }
@@ -390,6 +399,23 @@ fn receiver_actor(
                     let (mon, to_return) = rxp.verif_credits();
                     let (used, limit) = mon.unwrap_or((0, 0));
                     done(&pending, &k, format!("probe queue={} used={} limit={} toreturn={}", rxp.verif_queue_len(), used, limit, to_return));
+                }
+                RCmd::Forward { k, tx, cancel } => {
+                    let Ok(mut tx) = tx.await else {
+                        done(&pending, &k, "err no-sender".into());
+                        continue;
+                    };
+                    tokio::select! {
+                        biased;
+                        r = rxp.forward(&mut tx) => done(&pending, &k, match r {
+                            Ok(n) => format!("ok total={n}"),
+                            Err(remoc::chmux::ForwardError::Send(e)) => format!("err send {}", send_err(&e)),
+                            Err(remoc::chmux::ForwardError::Recv(_)) => "err recv".into(),
+                        }),
+                        _ = cancel => cancelled(&pending, &k),
+                    }
+                    drop(tx);
+                    break;
                 }
                 RCmd::Drop => break,
             }
@@ -983,6 +1009,20 @@ impl World {
                     }
                 };
                 let _ = s.send(cmd);
+            }
+            "forward" => {
+                // forward k side rxport txport
+                let (k, side) = (t[1].to_string(), t[2]);
+                let (rkey, tkey) = (format!("{}@{}", t[3], side), format!("{}@{}", t[4], side));
+                let cancel = self.begin_on(&format!("{rkey}:rx"), &k);
+                let (stx, srx) = oneshot::channel();
+                match (self.receivers.get(&rkey), self.senders.remove(&tkey)) {
+                    (Some(r), Some(sd)) => {
+                        let _ = sd.send(SCmd::Take { reply: stx });
+                        let _ = r.send(RCmd::Forward { k, tx: srx, cancel });
+                    }
+                    _ => done(&self.pending, &k, "err no-such-handle".into()),
+                }
             }
             "labelall" => {
                 // every sender sends its own (local, remote) port numbers; every receiver receives once
